@@ -275,14 +275,14 @@ def run_config(ctx, rep, cfg, F):
                 callee = n_["path"]
                 cf = F.fns.get(callee)
                 local_ok = cf is not None and cf.get("impl") and (callee == gm or handle_producer(F, cf, mut) is not None)
-                if local_ok or f["file"].endswith("inner.rs"):
+                if local_ok or C.in_module(F, f["path"], C.ARENA_MOD):
                     rep.ok("R14.6", bshort, "unsafe call of " + n_["name"])
                 else:
                     rep.bad("R14.6", bshort, "foreign-unsafe:" + n_["name"], "%s (%s) calls the unsafe function %s: outside inner.rs the only unsafe operations "
                             "may be the crate's own mutable-handle constructors and Table::get_mut (whose contracts R14.2 checks); anything else "
                             "(transmute, raw pointers, lifetime extension) bypasses the borrow-based exclusivity argument" % (bshort, f["file"], callee), config=cfg)
             for n_, ps in find_all(body["thir"]["body"], lambda x: x["k"] == "Deref" and isinstance(x.get("e"), dict) and "ty" in x["e"] and F.types[x["e"]["ty"]]["t"] == "ptr"):
-                if not f["file"].endswith("inner.rs") and not n_.get("exp"):
+                if not C.in_module(F, f["path"], C.ARENA_MOD) and not n_.get("exp"):
                     rep.bad("R14.6", bshort, "raw-deref", "%s dereferences a raw pointer outside inner.rs" % bshort, config=cfg)
     rep.floor("unsafe calls inventoried (%s)" % cfg, n_unsafe_calls, 10)
     # ---- R14.5
